@@ -51,6 +51,20 @@ def run(tier, seed):
                 raise vc.EngineError(f"vacuous: outcome class '{k}' never observed")
         if m["distinct_outcomes"] < 10:
             raise vc.EngineError("vacuous: fewer than 10 distinct consumer histories")
+    # the queue inside the runtime: start-up (every buffer reset before any LP_INIT handler may insert), cross-thread inserts from
+    # LP_INIT, shutdown; oracle: the monitor of inserted / extracted / still-queued messages of h_run (a lost message stays "queued"
+    # for ever and the GVT passes it), plus its end-state and commit oracles
+    from checks import hrun_common as hc
+    from lib import models
+    hb = hc.build(os.path.join(d, "hrun"))
+    hsc = [hc.scen("rt_m0_T2", models.text(2, [1, 2], [2, 1, 7], P=0, K=5, H=6), T=2, ck=2, p=1, j=4, deadline=600),
+           hc.scen("rt_m1_T3", models.text(3, [7, 0, 1], [7, 2, 1], P=0, K=5, H=6), T=3, ck=1, p=1, j=4, deadline=600),
+           hc.scen("rt_init4_T3", models.text(4, [2, 2, 2, 2], [1, 2, 2], P=5, K=4, H=4), T=3, ck=0, gp=1, p=1, j=4, deadline=600)]
+    if tier != "quick":
+        hsc += [hc.scen("rt_m0_T2_p2", models.text(2, [1, 2], [2, 1, 7], P=0, K=5, H=6), T=2, ck=2, p=2, j=8, deadline=1500),
+                hc.scen("rt_init4_T4", models.text(4, [2, 2, 2, 2], [1, 2, 2], P=5, K=4, H=4), T=4, ck=2, p=1, j=8, deadline=1500)]
+    hreps, hm, hviol = vc.rsched_scenarios(PID, "h_run", hb, hsc, d, workers=3)
+    viol += hviol
     n = vc.triage(PID, viol)
     cov = {
         "states": sum(r["distinct_states"] for r in reps if r["mode"] == "stateful") + m["new_choice_points"],
@@ -68,6 +82,12 @@ def run(tier, seed):
         "scenarios": vc.scenario_table(reps)[:12],
         "counters": m["counters"], "distinct_outcomes": m["distinct_outcomes"],
     }
+    cov["evaluations"] += hm["executions"]
+    cov["traces_validated_against_impl"] += hm["executions"]
+    cov["queue_inside_the_runtime"] = {"executions": hm["executions"], "scenarios": vc.scenario_table(hreps), "exhaustive": hm["exhaustive"]}
+    cov["rule"] += ("; plus the queue inside the whole runtime (h_run, 2-4 threads, LP_INIT handlers inserting for LPs of other threads, call-"
+                    "granularity interleavings p<=1 incl. the start-up and shutdown barriers): no inserted message is lost - the monitor's "
+                    "'still queued' set must be empty below every reported GVT, committed events = sequential execution")
     vc.write_evidence(PID, tier, "model_checking", cov,
                       ["sequentially consistent interleavings of the hooked atomics and of operation boundaries",
                        "message count <= 6, producers <= 3, consumer op strings of length 5 followed by a full drain",
@@ -78,4 +98,7 @@ def run(tier, seed):
 
 def replay(path):
     d = vc.fresh_dir(PID + "_replay")
+    if os.path.basename(path).startswith("rt_"):
+        from checks import hrun_common as hc
+        return vc.rsched_replay(hc.build(d), path)
     return vc.rsched_replay(build(d), path)
